@@ -10,9 +10,14 @@ NOTE = ('Trusted base: Verus 0.2026.09.13 + Z3; the extractor vx/gen.py (every e
         '(coverage.trusted_base, assumptions).')
 
 CLAIMS = {
+ 'C07': ('The integer arithmetic with which the noise budget is computed, as contracts on the real code: poly_infty_norm returns exactly the maximum over all coefficients of the centered absolute value (c if c < ceil(Q/2), else Q - c) of multi-word residues, '
+         'built on contracts of half_round_up_uint ((x+1)/2), the multi-word comparison family and sub_uint against the integer value of the limb sequences (unit c08_cmp); the last step of Decryptor::invariant_noise_budget (fragment) returns max(0, bits(Q) - bits(norm) - 1) with bits(x) = floor(log2 x) + 1 '
+         '(get_significant_bit_count_uint proved against 2^(b-1) <= x < 2^b). The deterministic bounds the fresh-budget clause rests on are proved in unit c16_sample (ternary secret / mask in {-1,0,1}, error |e| <= 21, identical in every RNS component), '
+         'and negation / addition / subtraction are exact word by word (unit c02_translate), so they change the phase exactly as the ring operation does. '
+         'Not covered: that the reported budget equals the definition evaluated on the true phase (dot_product_ct_sk_array uses the NTT; RNSBase::compose_array (CRT) is not under contract), the fresh-budget and additive bounds themselves (need the ring norm inequality over the NTT/CRT representation), exact decryption below the threshold.', '5 C07'),
  'C08': ('Every listed word-level and multi-word primitive carries a contract against an integer specification (x mod q, limb-sequence value, '
          'gcd/Bezout definition, pow) and Verus discharges it for all moduli 2<=q<2^61, all operands and all word counts, function by function. '
-         'Not covered: bit-serial divide_uint*/divide_u192 (assumed contract), multiply_uint general path, variable-length shifts.', '5 C08'),
+         'Also: compare_uint and the five comparison wrappers, get_significant_uint64_count_uint, get_significant_bit_count_uint, half_round_up_uint, hamming_weight, get_power_of_two (units c08_cmp, c16_sample, c13_params). Not covered: bit-serial divide_uint*/divide_u192 (assumed contract), multiply_uint general path, variable-length shifts, multiply_many_u64, *_uint_mod.', '5 C08'),
  'C01': ('The arithmetic anchor of BFV encryption/decryption exactness: scaling_variant::multiply_add_plain and multiply_sub_plain are proved, for every plain modulus t, every level and every plaintext with coefficients below t, to add/subtract in every RNS word '
          'exactly D*m + floor((R*m + floor((t+1)/2))/t) mod q_j (D = floor(Q/t) mod q_j and R = Q mod t taken from the level constants) and to leave all other words untouched; a spec-level theorem shows this equals floor((Q*m + floor((t+1)/2))/t), '
          'i.e. round(Q*m/t) computed without big integers. ASSUMED: the level constants equal their definitions (C13). '
@@ -91,7 +96,7 @@ NOT_APPLICABLE = {
  'C18': 'agreement across n parties and all message delivery orders is a whole-history property; the per-call code sits behind iterator closures, context plumbing and serialization and no contract within reach connects it to "keys correspond to the sum of secret keys"',
 }
 
-PENDING = ['C07', 'C20']
+PENDING = ['C20']
 
 
 def main():
